@@ -159,14 +159,60 @@ structure WF (h : Hdr ℝ) (im : Img ℝ) : Prop where
   scale1 : h.cdelt1.isSome ∨ h.cd11.isSome
   scale2 : h.cdelt2.isSome ∨ h.cd22.isSome
 
-/-- `*= factor` followed by `/= factor` finds the same keyword and restores its value -/
-theorem scale_roundtrip (fa : ℝ) (hfa : fa ≠ 0) (a b : Option ℝ) (h : a.isSome ∨ b.isSome) :
-    ∃ a' b', scaleUp fa a b = some (a', b') ∧ scaleDown fa a' b' = some (a, b) := by
+/-- what the theorems need of the regenerated keyword arithmetic: each expand formula undoes the compress formula
+    (for a non-zero factor), and both functions pick the same scale keyword of each axis, one that is present -/
+structure HdrLaws (H : HdrArith ℝ) : Prop where
+  crpix1 : ∀ c1 c2 f : ℝ, f ≠ 0 → H.crpixE1 (H.crpixC1 c1 c2 f) (H.crpixC2 c1 c2 f) f = c1
+  crpix2 : ∀ c1 c2 f : ℝ, f ≠ 0 → H.crpixE2 (H.crpixC1 c1 c2 f) (H.crpixC2 c1 c2 f) f = c2
+  a1 : ∀ v f : ℝ, f ≠ 0 → H.dnA1 (H.upA1 v f) f = v
+  b1 : ∀ v f : ℝ, f ≠ 0 → H.dnB1 (H.upB1 v f) f = v
+  a2 : ∀ v f : ℝ, f ≠ 0 → H.dnA2 (H.upA2 v f) f = v
+  b2 : ∀ v f : ℝ, f ≠ 0 → H.dnB2 (H.upB2 v f) f = v
+  /-- only CDELTi present ⇒ 1; only CDi_i ⇒ 2; both ⇒ 1 or 2, the same in compress and expand -/
+  k1 : H.keyC1 1 0 = 1 ∧ H.keyC1 0 1 = 2 ∧ (H.keyC1 1 1 = 1 ∨ H.keyC1 1 1 = 2) ∧
+       H.keyE1 1 0 = 1 ∧ H.keyE1 0 1 = 2 ∧ H.keyE1 1 1 = H.keyC1 1 1
+  k2 : H.keyC2 1 0 = 1 ∧ H.keyC2 0 1 = 2 ∧ (H.keyC2 1 1 = 1 ∨ H.keyC2 1 1 = 2) ∧
+       H.keyE2 1 0 = 1 ∧ H.keyE2 0 1 = 2 ∧ H.keyE2 1 1 = H.keyC2 1 1
+
+/-- what the theorems need of the regenerated BN_* bookkeeping -/
+structure BnLaws (B : BnArith) : Prop where
+  cfac : ∀ f n1 n2 lx ly, B.cfac f n1 n2 lx ly = f
+  rpx1 : ∀ f n1 n2 lx ly, B.rpx1 f n1 n2 lx ly = lx
+  rpx2 : ∀ f n1 n2 lx ly, B.rpx2 f n1 n2 lx ly = ly
+  /-- the shape expand reads back is the (NAXIS2, NAXIS1) compress stored -/
+  rows : ∀ f n1 n2 lx ly, B.outRows (B.npx1 f n1 n2 lx ly) (B.npx2 f n1 n2 lx ly) = n2
+  cols : ∀ f n1 n2 lx ly, B.outCols (B.npx1 f n1 n2 lx ly) (B.npx2 f n1 n2 lx ly) = n1
+  deleted : B.deleted 0 = 31
+
+/-- the dispatch + rescale of compress followed by the dispatch + rescale of expand finds the same keyword and
+    restores its value -/
+theorem scale_roundtrip (keyC keyE : Nat → Nat → Nat) (upA upB dnA dnB : ℝ → ℝ → ℝ) (fa : ℝ) (hfa : fa ≠ 0)
+    (hA : ∀ v f : ℝ, f ≠ 0 → dnA (upA v f) f = v) (hB : ∀ v f : ℝ, f ≠ 0 → dnB (upB v f) f = v)
+    (hk : keyC 1 0 = 1 ∧ keyC 0 1 = 2 ∧ (keyC 1 1 = 1 ∨ keyC 1 1 = 2) ∧ keyE 1 0 = 1 ∧ keyE 0 1 = 2 ∧ keyE 1 1 = keyC 1 1)
+    (a b : Option ℝ) (h : a.isSome ∨ b.isSome) :
+    ∃ a' b', scaleWith keyC upA upB fa a b = some (a', b') ∧ scaleWith keyE dnA dnB fa a' b' = some (a, b) := by
+  obtain ⟨k10, k01, k11, e10, e01, e11⟩ := hk
   cases a with
-  | some v => exact ⟨some (v * fa), b, rfl, by simp [scaleDown, mul_div_assoc, div_self hfa]⟩
+  | some v =>
+    cases b with
+    | none =>
+      refine ⟨some (upA v fa), none, ?_, ?_⟩
+      · simp [scaleWith, k10]
+      · simp [scaleWith, e10, hA v fa hfa]
+    | some w =>
+      rcases k11 with k | k
+      · refine ⟨some (upA v fa), some w, ?_, ?_⟩
+        · simp [scaleWith, k]
+        · simp [scaleWith, e11, k, hA v fa hfa]
+      · refine ⟨some v, some (upB w fa), ?_, ?_⟩
+        · simp [scaleWith, k]
+        · simp [scaleWith, e11, k, hB w fa hfa]
   | none =>
     cases b with
-    | some v => exact ⟨none, some (v * fa), rfl, by simp [scaleDown, mul_div_assoc, div_self hfa]⟩
+    | some w =>
+      refine ⟨none, some (upB w fa), ?_, ?_⟩
+      · simp [scaleWith, k01]
+      · simp [scaleWith, e01, hB w fa hfa]
     | none => simp at h
 
 /-- the compressed image: node `k·f` for `k < nn`, then the last row / column -/
@@ -174,37 +220,44 @@ def cpx (f : Nat) (im : Img ℝ) : Nat → Nat → ℝ :=
   fun i j => im.px (srcIndex im.rows ((im.rows + f - 1) / f) f i) (srcIndex im.cols ((im.cols + f - 1) / f) f j)
 
 theorem compress_ok {nxOf nyOf lcxOf lcyOf : Nat → Nat → Nat → Nat} (L : IdxLaws nxOf nyOf lcxOf lcyOf)
+    (H : HdrArith ℝ) (B : BnArith)
     (f : Nat) (hf : 0 < f) (h : Hdr ℝ) (im : Img ℝ) (hr : 2 ≤ im.rows) (hc : 2 ≤ im.cols)
     {a1 b1 a2 b2 : Option ℝ}
-    (s1 : scaleUp (f : ℝ) h.cdelt1 h.cd11 = some (a1, b1)) (s2 : scaleUp (f : ℝ) h.cdelt2 h.cd22 = some (a2, b2)) :
-    compress nxOf nyOf lcxOf lcyOf f h im = .ok
+    (s1 : scaleWith H.keyC1 H.upA1 H.upB1 (f : ℝ) h.cdelt1 h.cd11 = some (a1, b1))
+    (s2 : scaleWith H.keyC2 H.upA2 H.upB2 (f : ℝ) h.cdelt2 h.cd22 = some (a2, b2)) :
+    compress nxOf nyOf lcxOf lcyOf H B f h im = .ok
       ({ naxis1 := (im.cols + f - 1) / f + 1, naxis2 := (im.rows + f - 1) / f + 1,
-         crpix1 := (h.crpix1 + f - 1) / f, crpix2 := (h.crpix2 + f - 1) / f,
+         crpix1 := H.crpixC1 h.crpix1 h.crpix2 f, crpix2 := H.crpixC2 h.crpix1 h.crpix2 f,
          cdelt1 := a1, cd11 := b1, cdelt2 := a2, cd22 := b2,
-         bn := some { cfac := f, npx1 := h.naxis1, npx2 := h.naxis2, rpx1 := im.rows % f, rpx2 := im.cols % f },
+         bn := some { cfac := B.cfac f h.naxis1 h.naxis2 (im.rows % f) (im.cols % f),
+                      npx1 := B.npx1 f h.naxis1 h.naxis2 (im.rows % f) (im.cols % f),
+                      npx2 := B.npx2 f h.naxis1 h.naxis2 (im.rows % f) (im.cols % f),
+                      rpx1 := B.rpx1 f h.naxis1 h.naxis2 (im.rows % f) (im.cols % f),
+                      rpx2 := B.rpx2 f h.naxis1 h.naxis2 (im.rows % f) (im.cols % f) },
          other := h.other },
        { rows := (im.rows + f - 1) / f + 1, cols := (im.cols + f - 1) / f + 1, px := cpx f im }) := by
   have hf0 : f ≠ 0 := by omega
   have h2 : ¬ (im.rows < 2 ∨ im.cols < 2) := by omega
   unfold compress
   simp only [hf0, if_false, h2, L.nx _ _ _ hf, L.ny _ _ _ hf, L.lcx _ _ _ hf, L.lcy _ _ _ hf, range_length _ _ hf,
-    ne_eq, not_true_eq_false, or_self, R.real_ofNat, s1, s2, Nat.cast_one]
+    ne_eq, not_true_eq_false, or_self, R.real_ofNat, s1, s2]
   rfl
 
-theorem expand_ok {nodeRow nodeCol : Nat → Nat → Nat → Nat → Nat} (hc : Hdr ℝ) (c : Img ℝ) (bn : BN)
-    (hbn : hc.bn = some bn) (hf : 0 < bn.cfac)
+theorem expand_ok {nodeRow nodeCol : Nat → Nat → Nat → Nat → Nat} (H : HdrArith ℝ) (B : BnArith)
+    (hc : Hdr ℝ) (c : Img ℝ) (bn : BN)
+    (hbn : hc.bn = some bn) (hf : 0 < bn.cfac) (hdel : B.deleted 0 = 31)
     (hnr : ∀ k, nodeRow k bn.rpx1 bn.rpx2 bn.cfac = k * bn.cfac)
     (hnc : ∀ k, nodeCol k bn.rpx1 bn.rpx2 bn.cfac = k * bn.cfac)
     (hr : 2 ≤ c.rows) (hcc : 2 ≤ c.cols)
-    (cr : bn.npx2 ≤ (c.rows - 1) * bn.cfac) (cc : bn.npx1 ≤ (c.cols - 1) * bn.cfac)
+    (cr : B.outRows bn.npx1 bn.npx2 ≤ (c.rows - 1) * bn.cfac) (cc : B.outCols bn.npx1 bn.npx2 ≤ (c.cols - 1) * bn.cfac)
     {a1 b1 a2 b2 : Option ℝ}
-    (s1 : scaleDown (bn.cfac : ℝ) hc.cdelt1 hc.cd11 = some (a1, b1))
-    (s2 : scaleDown (bn.cfac : ℝ) hc.cdelt2 hc.cd22 = some (a2, b2)) :
-    expand nodeRow nodeCol hc c = .ok
-      ({ naxis1 := bn.npx1, naxis2 := bn.npx2,
-         crpix1 := (hc.crpix1 - 1) * bn.cfac + 1, crpix2 := (hc.crpix2 - 1) * bn.cfac + 1,
+    (s1 : scaleWith H.keyE1 H.dnA1 H.dnB1 (bn.cfac : ℝ) hc.cdelt1 hc.cd11 = some (a1, b1))
+    (s2 : scaleWith H.keyE2 H.dnA2 H.dnB2 (bn.cfac : ℝ) hc.cdelt2 hc.cd22 = some (a2, b2)) :
+    expand nodeRow nodeCol H B hc c = .ok
+      ({ naxis1 := B.outCols bn.npx1 bn.npx2, naxis2 := B.outRows bn.npx1 bn.npx2,
+         crpix1 := H.crpixE1 hc.crpix1 hc.crpix2 bn.cfac, crpix2 := H.crpixE2 hc.crpix1 hc.crpix2 bn.cfac,
          cdelt1 := a1, cd11 := b1, cdelt2 := a2, cd22 := b2, bn := none, other := hc.other },
-       { rows := bn.npx2, cols := bn.npx1,
+       { rows := B.outRows bn.npx1 bn.npx2, cols := B.outCols bn.npx1 bn.npx2,
          px := interp2 (fun k => k * bn.cfac) (fun k => k * bn.cfac) c.rows c.cols c.px }) := by
   have hf0 : bn.cfac ≠ 0 := by omega
   have h2 : ¬ (c.rows < 2 ∨ c.cols < 2) := by omega
@@ -212,17 +265,18 @@ theorem expand_ok {nodeRow nodeCol : Nat → Nat → Nat → Nat → Nat} (hc : 
   have gc : (fun k => nodeCol k bn.rpx1 bn.rpx2 bn.cfac) = (fun k => k * bn.cfac) := funext hnc
   unfold expand
   simp only [hbn, hf0, if_false, h2, gr, gc, ascending_mul _ hf, covers_mul _ _ _ cr, covers_mul _ _ _ cc,
-    Bool.and_self, Bool.not_true, Bool.or_true, Bool.false_eq_true, R.real_ofNat, s1, s2, Nat.cast_one]
+    Bool.and_self, Bool.not_true, Bool.or_true, Bool.false_eq_true, R.real_ofNat, s1, s2, hdel, if_true]
 
-/-- **the round trip on well-formed input**, for any index arithmetic satisfying the laws and any
-    node-coordinate functions that give `k·f` for the residuals `compress` wrote -/
+/-- **the round trip on well-formed input**, for any index arithmetic, keyword arithmetic and BN bookkeeping
+    satisfying the laws and any node-coordinate functions that give `k·f` for the residuals `compress` wrote -/
 theorem roundTrip_eq {nxOf nyOf lcxOf lcyOf : Nat → Nat → Nat → Nat} {nodeRow nodeCol : Nat → Nat → Nat → Nat → Nat}
-    (L : IdxLaws nxOf nyOf lcxOf lcyOf) (f : Nat) (hf : 0 < f) (h : Hdr ℝ) (im : Img ℝ) (wf : WF h im)
+    (L : IdxLaws nxOf nyOf lcxOf lcyOf) {H : HdrArith ℝ} (HL : HdrLaws H) {B : BnArith} (BL : BnLaws B)
+    (f : Nat) (hf : 0 < f) (h : Hdr ℝ) (im : Img ℝ) (wf : WF h im)
     (hnr : ∀ k, nodeRow k (im.rows % f) (im.cols % f) f = k * f)
     (hnc : ∀ k, nodeCol k (im.rows % f) (im.cols % f) f = k * f) :
-    roundTrip nxOf nyOf lcxOf lcyOf nodeRow nodeCol f h im = .ok
+    roundTrip nxOf nyOf lcxOf lcyOf nodeRow nodeCol H B f h im = .ok
       ({ naxis1 := h.naxis1, naxis2 := h.naxis2,
-         crpix1 := ((h.crpix1 + f - 1) / f - 1) * f + 1, crpix2 := ((h.crpix2 + f - 1) / f - 1) * f + 1,
+         crpix1 := h.crpix1, crpix2 := h.crpix2,
          cdelt1 := h.cdelt1, cd11 := h.cd11, cdelt2 := h.cdelt2, cd22 := h.cd22, bn := none, other := h.other },
        { rows := h.naxis2, cols := h.naxis1,
          px := interp2 (fun k => k * f) (fun k => k * f) ((im.rows + f - 1) / f + 1) ((im.cols + f - 1) / f + 1)
@@ -230,18 +284,23 @@ theorem roundTrip_eq {nxOf nyOf lcxOf lcyOf : Nat → Nat → Nat → Nat} {node
   have hfr : (f : ℝ) ≠ 0 := by
     have : (0 : ℝ) < f := by exact_mod_cast hf
     exact ne_of_gt this
-  obtain ⟨a1, b1, u1, d1⟩ := scale_roundtrip (f : ℝ) hfr h.cdelt1 h.cd11 wf.scale1
-  obtain ⟨a2, b2, u2, d2⟩ := scale_roundtrip (f : ℝ) hfr h.cdelt2 h.cd22 wf.scale2
+  obtain ⟨a1, b1, u1, d1⟩ := scale_roundtrip H.keyC1 H.keyE1 H.upA1 H.upB1 H.dnA1 H.dnB1 (f : ℝ) hfr HL.a1 HL.b1 HL.k1
+    h.cdelt1 h.cd11 wf.scale1
+  obtain ⟨a2, b2, u2, d2⟩ := scale_roundtrip H.keyC2 H.keyE2 H.upA2 H.upB2 H.dnA2 H.dnB2 (f : ℝ) hfr HL.a2 HL.b2 HL.k2
+    h.cdelt2 h.cd22 wf.scale2
   have br := ceil_bounds im.rows f hf (by have := wf.rows; omega)
   have bc := ceil_bounds im.cols f hf (by have := wf.cols; omega)
   unfold roundTrip
-  rw [compress_ok L f hf h im wf.rows wf.cols u1 u2]
+  rw [compress_ok L H B f hf h im wf.rows wf.cols u1 u2]
   simp only []
-  rw [expand_ok (nodeRow := nodeRow) (nodeCol := nodeCol) _ _
-      { cfac := f, npx1 := h.naxis1, npx2 := h.naxis2, rpx1 := im.rows % f, rpx2 := im.cols % f } rfl hf hnr hnc
+  rw [expand_ok (nodeRow := nodeRow) (nodeCol := nodeCol) H B _ _ _ rfl
+      (by simp only [BL.cfac]; exact hf) BL.deleted
+      (by simp only [BL.cfac, BL.rpx1, BL.rpx2]; exact hnr) (by simp only [BL.cfac, BL.rpx1, BL.rpx2]; exact hnc)
       (by simp only []; omega) (by simp only []; omega)
-      (by simp only [Nat.add_sub_cancel]; rw [wf.naxis2]; exact br.2.2)
-      (by simp only [Nat.add_sub_cancel]; rw [wf.naxis1]; exact bc.2.2) d1 d2]
+      (by simp only [BL.rows, BL.cfac, Nat.add_sub_cancel]; rw [wf.naxis2]; exact br.2.2)
+      (by simp only [BL.cols, BL.cfac, Nat.add_sub_cancel]; rw [wf.naxis1]; exact bc.2.2)
+      (by simp only [BL.cfac]; exact d1) (by simp only [BL.cfac]; exact d2)]
+  simp only [BL.cfac, BL.rows, BL.cols, HL.crpix1 _ _ _ hfr, HL.crpix2 _ _ _ hfr]
 
 /-! ### the clauses, about the expanded image `interp2 (k ↦ k·f) (k ↦ k·f) (nx+1) (ny+1) (cpx f im)` -/
 
